@@ -23,6 +23,12 @@ pub fn run_tris(ctx: &mut Ctx, tris: Vec<Tri>) {
     for (t, model) in tris.into_iter().zip(answers.into_iter()) {
         ctx.rep.count(&format!("evaluations.{}", t.op));
         ctx.rep.count("evaluations");
+        {
+            let imp_bad = t.imp.as_ref().map(|i| !imp::same_outcome(i, &model) || t.spec.as_ref().map(|s| !imp::same_outcome(i, s)).unwrap_or(false)).unwrap_or(false);
+            if imp_bad && t.class != "corpus" && t.class != "path-literal-plus" && ctx.rep.corpus_candidates.len() < 40 {
+                ctx.rep.corpus_candidates.push(format!("T {}", t.line));
+            }
+        }
         if let Some(i) = &t.imp {
             ctx.rep.count("traces_validated_against_impl");
             let cls = i.split(' ').next().unwrap_or("").to_string();
@@ -118,7 +124,7 @@ pub fn selftest(ctx: &mut Ctx) {
 // ---------------------------------------------------------------------------------------------
 // C09
 
-fn elem_tri(s: &[u8], is_path: bool) -> Tri {
+pub fn elem_tri(s: &[u8], is_path: bool) -> Tri {
     let as_str = std::str::from_utf8(s).ok();
     let kind = if is_path { "InvalidURIPath" } else { "MalformedQueryString" };
     // The crate reads '+' as a space in both kinds of element; the specification does so only in queries.
@@ -143,7 +149,7 @@ fn elem_tri(s: &[u8], is_path: bool) -> Tri {
     }
 }
 
-fn path_tri(p: &[u8], s3: bool) -> Tri {
+pub fn path_tri(p: &[u8], s3: bool) -> Tri {
     let as_str = std::str::from_utf8(p).ok();
     let spec_true = spec_line(rs::ref_path(p, s3, false), "InvalidURIPath");
     let imp = as_str.map(|t| imp::path(s3, t));
@@ -349,7 +355,7 @@ pub fn c09(ctx: &mut Ctx) {
 // ---------------------------------------------------------------------------------------------
 // C10
 
-fn qcanon_tri(q: &[u8]) -> Tri {
+pub fn qcanon_tri(q: &[u8]) -> Tri {
     let as_str = std::str::from_utf8(q).ok();
     let spec = spec_line(rs::ref_canon_query(q), "MalformedQueryString");
     let imp = as_str.map(|t| imp::qcanon(t));
@@ -558,7 +564,7 @@ pub fn c06(ctx: &mut Ctx) {
 // ---------------------------------------------------------------------------------------------
 // C16
 
-fn iso_tri(s: &[u8]) -> Tri {
+pub fn iso_tri(s: &[u8]) -> Tri {
     let as_str = std::str::from_utf8(s).ok();
     let spec = match rs::ref_parse_iso(s) {
         Some(ns) => format!("OK {}", ns),
